@@ -13,7 +13,7 @@ import (
 
 func init() {
 	props["C09"] = &propDef{
-		rule: "cases = (0) copied sample data: File.CopySampleData over sample intervals of generated progressive files, both modes, every work-buffer size 1..payload+2, and of the same tracks laid out in files with several media-data boxes (an empty mdat with 8-byte or largesize header before the media, after it, or both; both modes, work buffers {0,1,2,3,7,16,large}) against the bytes the tables' absolute chunk offsets point to; random consistent sample tables of a progressive track (1..12 entries per run-length table, N <= 60 samples, chunk sizes 1..7 with description-id changes, ctts v0/v1 incl. zero-count entries, uniform/explicit stsz, stco/co64, stss present/absent/empty, sdtp), built through the real box encoders+decoders (alternating io.Reader and SliceReader paths) or AddEntry constructors; every query is evaluated EXHAUSTIVELY for all sample numbers 1..N, all intervals 1<=a<=b<=N, all chunk numbers and all times 0..total+2 and compared with a naive per-sample expansion; non-trivial = distinct table set with >= 2 stsc entries or >= 2 stts entries",
+		rule: "cases = (0) copied sample data: File.CopySampleData over sample intervals of generated progressive files, both modes, every work-buffer size 1..payload+2, and of the same tracks laid out in files with several media-data boxes (an empty mdat with 8-byte or largesize header before the media, after it, or both; both modes, work buffers {0,1,2,3,7,16,large}) against the bytes the tables' absolute chunk offsets point to; random consistent sample tables of a progressive track (1..12 entries per run-length table, N <= 60 samples, chunk sizes 1..7 with description-id changes, ctts v0/v1 incl. zero-count entries, uniform/explicit stsz, stco/co64, stss present/absent/empty, sdtp), built through the real box encoders+decoders (alternating io.Reader and SliceReader paths) or AddEntry constructors; every query (incl. the sample description id of every chunk, in ascending, descending and random order) is evaluated EXHAUSTIVELY for all sample numbers 1..N, all intervals 1<=a<=b<=N, all chunk numbers and all times 0..total+2 and compared with a naive per-sample expansion; non-trivial = distinct table set with >= 2 stsc entries or >= 2 stts entries",
 		gen:  genC09,
 		exec: execC09,
 	}
@@ -458,6 +458,17 @@ func queryC09(trak *mp4.TrakBox, t *tables, q []string) string {
 				pstr(func() string { return fmt.Sprint(stbl.Stsz.GetSampleSize(i)) })+";"+
 				pstr(func() string { c, f, _ := stbl.Stsc.ChunkNrFromSampleNr(i); return fmt.Sprintf("%d:%d", c, f) }))
 		}
+	case "sdi":
+		// sample description id of every chunk, ascending
+		for c := 1; c <= len(t.offsets); c++ {
+			l = append(l, pstr(func() string { return fmt.Sprint(stbl.Stsc.GetSampleDescriptionID(c)) }))
+		}
+	case "sdiseq":
+		// sample description id of the listed chunks on ONE object, in the caller's order
+		for _, f := range strings.Split(q[1], ",") {
+			c := atoi(f)
+			l = append(l, pstr(func() string { return fmt.Sprint(stbl.Stsc.GetSampleDescriptionID(c)) }))
+		}
 	case "sdata":
 		a, b := atoi(q[1]), atoi(q[2])
 		return pstr(func() string {
@@ -487,6 +498,7 @@ type expanded struct {
 	chunkOf   []int // 1-based chunk of sample i (0-based idx)
 	firstIn   []int // first sample (1-based) of chunk c (index c-1)
 	nrIn      []int
+	sdiOf     []uint32 // sample description id of chunk c (index c-1)
 	off       []uint64 // byte offset of each sample
 	flags     []uint32
 }
@@ -601,11 +613,15 @@ func genTables(c *Ctx) (*tables, *expanded) {
 	}
 	sdi := uint32(1)
 	multiSdi := r.Intn(3) == 0
+	if multiSdi && r.Intn(2) == 0 {
+		sdi = uint32(1 + r.Intn(3)) // the first entry's id need not be 1
+	}
 	for i, k := range spcs {
 		newSdi := sdi
-		if multiSdi && r.Intn(3) == 0 {
+		if multiSdi && i > 0 && r.Intn(3) == 0 {
 			newSdi = uint32(1 + r.Intn(3))
 		}
+		e.sdiOf = append(e.sdiOf, newSdi)
 		if i == 0 || int(t.stsc[len(t.stsc)-1][1]) != k || newSdi != sdi || r.Intn(12) == 0 {
 			t.stsc = append(t.stsc, [3]uint32{uint32(i + 1), uint32(k), newSdi})
 		}
@@ -829,6 +845,31 @@ func genC09(c *Ctx) {
 			w = append(w, fmt.Sprintf("%d:%d", e.firstIn[ci], nr))
 		}
 		chk("C09-chunk", "GetChunk != naive chunk contents", "chunk", run("chunk"), jn(w))
+		// sample description id of every chunk (= of every sample of the chunk): ascending, descending, random order
+		w = nil
+		for ci := range e.sdiOf {
+			w = append(w, fmt.Sprint(e.sdiOf[ci]))
+		}
+		chk("C09-sample-description-id", "GetSampleDescriptionID != description id of the chunk's stsc entry", "sdi", run("sdi"), jn(w))
+		{
+			nc := len(e.sdiOf)
+			var desc, rnd []int
+			for ci := nc; ci >= 1; ci-- {
+				desc = append(desc, ci)
+			}
+			for k := 0; k < minInt(2*nc, 100); k++ {
+				rnd = append(rnd, 1+c.R.Intn(nc))
+			}
+			for _, ord := range [][]int{desc, rnd} {
+				var qs, ws []string
+				for _, ci := range ord {
+					qs = append(qs, fmt.Sprint(ci))
+					ws = append(ws, fmt.Sprint(e.sdiOf[ci-1]))
+				}
+				q := "sdiseq " + strings.Join(qs, ",")
+				chk("C09-sample-description-id", "GetSampleDescriptionID (chunks in another order than ascending) != description id of the chunk's stsc entry", q, run(q), jn(ws))
+			}
+		}
 		w = []string{"e"}
 		for _, o := range t.offsets {
 			w = append(w, fmt.Sprint(o))
